@@ -598,17 +598,22 @@ def loop(options: argparse.Namespace) -> None:
     checks = 0
     state = States.INIT
 
-    # Do cleanups on SIGTERM
+    # Do cleanups on SIGTERM. The handler only asks for the exit: it may run while the interrupted
+    # frame is inside sys.stdin.readline() (waiting for an acknowledgement) or sys.stdout, and
+    # writing the withdrawals from here would then re-enter that stream (RuntimeError: reentrant call)
+    class Terminate(BaseException):
+        """SIGTERM was received."""
+
     def sigterm_handler(signum: int, frame: object) -> None:  # pylint: disable=W0612,W0613
-        exabgp(States.EXIT)
-        sys.exit(0)
+        raise Terminate()
 
     signal.signal(signal.SIGTERM, sigterm_handler)
 
     while True:
-        checks, state = one(checks, state)
-
         try:
+            # a stop request (Ctrl-C, SIGTERM) may come at any time, not only while sleeping
+            checks, state = one(checks, state)
+
             # How much we should sleep?
             if state in (States.FALLING, States.RISING):
                 time.sleep(options.fast)
@@ -618,8 +623,13 @@ def loop(options: argparse.Namespace) -> None:
                 break
             else:
                 time.sleep(options.interval)
-        except KeyboardInterrupt:
+        except (KeyboardInterrupt, Terminate) as stop:
+            # nothing interrupts the withdrawals: no second request, no timeout of an interrupted check
+            signal.signal(signal.SIGTERM, signal.SIG_IGN)
+            signal.alarm(0)
             exabgp(States.EXIT)
+            if isinstance(stop, Terminate):
+                sys.exit(0)
             break
 
 
